@@ -38,9 +38,6 @@ WsOpen(o) == \E a \in DOMAIN o.apps : App(o, a).kind = "websocket" /\ App(o, a).
 IdleNow(o) == ~Busy(o) /\ ~WsOpen(o)
 
 AllReturned(o) == \A a \in DOMAIN o.apps : App(o, a).done # ""
-ParkedPipeline(o) == \E a \in DOMAIN o.reqs : Req(o, a).head /\ Req(o, a).idx > 1 /\ App(o, a).started = 0
-                                                /\ Req(o, a).ver # "2"
-
 Cause(o) == IF o.reset THEN "peer-reset" ELSE IF o.gone THEN "peer-eof"
             ELSE IF o.tfail THEN "write-failed" ELSE "server-close"
 
@@ -62,7 +59,8 @@ Clauses(o, ev, o2, p) ==
              THEN (IF ev.handler
                    THEN (IF o.final
                          THEN <<F("handler-leaked",
-                                  IF ParkedPipeline(o) THEN "pipelined-request-parked" ELSE Cause(o))>>
+                                  IF ParkedPipeline(o) THEN "pipelined-request-parked"
+                                  ELSE IF UnreadLeft(o) THEN "request-messages-unread" ELSE Cause(o))>>
                          ELSE IF ParkedPipeline(o) THEN <<>>
                          ELSE <<F("handler-lingers", Cause(o))>>)
                    ELSE IF ev.live > 0 THEN <<F("task-leaked", o.cfg.carrier)>> ELSE <<>>)
